@@ -10,6 +10,9 @@
 #include <vector>
 #include <cds/init.h>
 #include <cds/gc/hp.h>
+#include <atomic>
+#include <thread>
+#include <mutex>
 typedef unsigned long long ull;
 static std::map<void*, int> disposed;
 static void disposer(void* p) { disposed[p]++; }
@@ -46,12 +49,58 @@ static int run(int scan_kind, const char* what) {
         cds::threading::Manager::detachThread();
     }
     cds::Terminate();
-    if (!found) std::printf("not reproduced over the native scenario search\n");
+    if (!found) std::printf("not reproduced over the native scan scenario search\n");
+    return found;
+}
+// second family: adoption of an abandoned thread record while the adopter's retired array fills up (help_scan at detach).
+// H = 2 guards per thread, N = 4 threads, capacity in the documented range (> H*N). Holders T1/T2 keep two guards each across the
+// phases; B retires six guarded objects and exits (its record is abandoned with leftovers); the holders move their guards to
+// m0..m3; M retires m0..m3 and detaches: its scan keeps them, then help_scan adopts B's six leftovers.
+static std::mutex dmx; static std::map<void*, int> disposed2; static void disposer2(void* p) { std::lock_guard<std::mutex> l(dmx); disposed2[p]++; }
+static std::atomic<int> phase(0), acks(0);
+static void holder(uintptr_t b0, uintptr_t m0) {
+    cds::threading::Manager::attachThread();
+    { cds::gc::HP::Guard g0, g1; g0.assign((void*)b0); g1.assign((void*)(b0 + 0x10)); ++acks;
+      while (phase.load() < 2) std::this_thread::yield();
+      g0.assign((void*)m0); g1.assign((void*)(m0 + 0x10)); ++acks;
+      while (phase.load() < 4) std::this_thread::yield(); }
+    cds::threading::Manager::detachThread();
+}
+static int run_adopt(int scan_kind, const char* what) {
+    int found = 0;
+    for (size_t cap = 9; cap <= 10 && !found; ++cap) {
+        cds::Initialize();
+        disposed2.clear(); phase = 0; acks = 0;
+        uintptr_t B = 0x10000, M = 0x20000;      // b_i = B + 0x10*i, m_i = M + 0x10*i
+        {
+            cds::gc::HP hp(2, 4, cap, scan_kind == 0 ? cds::gc::HP::scan_type::classic : cds::gc::HP::scan_type::inplace);
+            cds::threading::Manager::attachThread();
+            std::thread t1(holder, B + 0x20, M), t2(holder, B + 0x40, M + 0x20);
+            {
+                cds::gc::HP::Guard g0, g1; g0.assign((void*)B); g1.assign((void*)(B + 0x10));
+                while (acks.load() < 2) std::this_thread::yield();
+                std::thread b([B]{ cds::threading::Manager::attachThread(); for (int i = 0; i < 6; ++i) cds::gc::HP::retire((void*)(B + 0x10 * i), disposer2); cds::threading::Manager::detachThread(); });
+                b.join();
+            }
+            phase = 2; while (acks.load() < 4) std::this_thread::yield();
+            for (int i = 0; i < 4; ++i) cds::gc::HP::retire((void*)(M + 0x10 * i), disposer2);
+            cds::threading::Manager::detachThread();       // scan + help_scan (adoption)
+            phase = 4; t1.join(); t2.join();
+        }
+        cds::Terminate();
+        for (int i = 0; i < 6 && !found; ++i) if (disposed2[(void*)(B + 0x10 * i)] != 1) {
+            std::printf("REPRODUCED %s: HP(2 guards, 4 threads, retired capacity %zu, %s scan): object b%d, left behind by an exited thread and adopted by help_scan() while the adopter's array filled up, was disposed %d times by the end of the singleton\n",
+                        what, cap, scan_kind == 0 ? "classic" : "inplace", i, disposed2[(void*)(B + 0x10 * i)]); found = 1; }
+        for (int i = 0; i < 4 && !found; ++i) if (disposed2[(void*)(M + 0x10 * i)] != 1) {
+            std::printf("REPRODUCED %s: object m%d disposed %d times\n", what, i, disposed2[(void*)(M + 0x10 * i)]); found = 1; }
+    }
     return found;
 }
 int main(int argc, char** argv) {
     if (argc < 2) return 2;
     std::string c = argv[1];
     int kind = c.find("classic") != std::string::npos ? 0 : 1;
-    return run(kind, c.c_str());
+    int r = run(kind, c.c_str());
+    if (!r && c.find("c01") == std::string::npos) { r = run_adopt(kind, c.c_str()); if (r) return 1; }
+    return r;
 }
